@@ -262,7 +262,16 @@ func modeDecidedAfterData(c *core.Ctx) {
 		if g := core.Callee(i); g != nil && cn(g) == "getDecrypter" && core.TypeIs(recvType(g), tConn) {
 			return true
 		}
-		return core.IsInvoke(i, mod+"/hap.Session", "Decrypter")
+		if core.IsInvoke(i, mod+"/hap.Session", "Decrypter") {
+			return true
+		}
+		// the getter under another name and parameter list
+		if v, ok := i.(ssa.Value); ok {
+			if call, isC := i.(*ssa.Call); isC && !call.Call.IsInvoke() && core.Callee(call) != nil && core.InModule(core.Callee(call)) {
+				return cryptoQuery(v, "getDecrypter", "Decrypter")
+			}
+		}
+		return false
 	}
 	sites := core.FindCalls(f, isDecider)
 	if len(sites) == 0 {
@@ -304,12 +313,17 @@ func modeDecidedAfterData(c *core.Ctx) {
 		return false, false
 	}
 	isDeciderResult := func(v ssa.Value) bool {
+		n := 0
 		for _, src := range core.Sources(v) {
+			if core.IsNilConst(src) {
+				continue
+			}
 			if call, ok := src.(*ssa.Call); !ok || !isDecider(call) {
 				return false
 			}
+			n++
 		}
-		return true
+		return n > 0
 	}
 	// an earlier answer "encrypted" stands: a cryptographer is never taken away again (C01-R3), so no plain-text read follows it
 	fact := core.AnyFact(peekOK, pending, empty, core.NonNilFact(isDeciderResult))
@@ -335,8 +349,18 @@ func modeDecidedAfterData(c *core.Ctx) {
 				continue
 			}
 			saidPlain := core.IsNilFact(func(v ssa.Value) bool {
-				srcs := core.Sources(v)
-				return len(srcs) == 1 && srcs[0] == dv
+				// the answer itself, or the answer merged with "no session" (the getter written out: nil when there is none)
+				n := 0
+				for _, src := range core.Sources(v) {
+					if core.IsNilConst(src) {
+						continue
+					}
+					if src != dv {
+						return false
+					}
+					n++
+				}
+				return n == 1
 			})
 			if core.Dominated(r, saidPlain) && core.Dominated(d, fact) {
 				ok = true
